@@ -64,6 +64,7 @@ Definition can_be_in_number (cf : cfg) (c : N) : bool :=
 Definition can_be_in_non_quoted_string (c : N) : bool :=
   is_between c 48 57 || is_between c 95 122 || is_between c 65 90.
 Definition is_quote (c : N) : bool := (c =? 39) || (c =? 34).
+Definition is_space (c : N) : bool := (c =? 32) || (c =? 9) || (c =? 13) || (c =? 10).
 
 (* ------------------------------------------------------------------------------------- *)
 (* skipSpacesAndComments *)
@@ -274,30 +275,24 @@ Definition f_allow_value (f : filter) : bool :=
 
 Definition star : bytes := [42].
 
-(* Filter::operator[](key): member lookup goes through JsonVariantConst::operator[] taking a C string,
-   i.e. the key is cut at its first NUL *)
-Fixpoint cut_nul (k : bytes) : bytes :=
-  match k with
-  | [] => []
-  | b :: t => if b =? 0 then [] else b :: cut_nul t
+(* Filter::operator[](key): the entry for the key, or the "*" entry when the key is absent
+   (an unbound JsonVariantConst; a null entry is an entry).  An unbound filter is JNull. *)
+Definition obj_member (v : jv) (k : bytes) : option jv :=
+  match v with
+  | JObj l => assoc_get k l
+  | _ => None
   end.
 
-Definition is_null (v : jv) := match v with JNull => true | _ => false end.
-
-Definition obj_member (v : jv) (k : bytes) : jv :=
-  match v with
-  | JObj l => match assoc_get k l with Some x => x | None => JNull end
-  | _ => JNull
+Definition or_star (v : jv) (m : option jv) : jv :=
+  match m with
+  | Some x => x
+  | None => match obj_member v star with Some x => x | None => JNull end
   end.
 
 Definition f_member (f : filter) (key : bytes) : filter :=
   match f with
   | None => None
-  | Some v =>
-      if equals_true v then f
-      else
-        let m := obj_member v (cut_nul key) in
-        Some (if is_null m then obj_member v star else m)
+  | Some v => if equals_true v then f else Some (or_star v (obj_member v key))
   end.
 
 (* filter[0UL] *)
@@ -306,9 +301,7 @@ Definition f_element (f : filter) : filter :=
   | None => None
   | Some v =>
       if equals_true v then f
-      else
-        let m := match v with JArr (x :: _) => x | _ => JNull end in
-        Some (if is_null m then obj_member v star else m)
+      else Some (or_star v (match v with JArr (x :: _) => Some x | _ => None end))
   end.
 
 (* ------------------------------------------------------------------------------------- *)
@@ -396,13 +389,11 @@ Section Containers.
                     | (e, s) => (e, JObj acc, s)
                     end in
                   if f_allow mf then
-                    (* getMember(adaptString(key.c_str())): the lookup key is cut at NUL;
-                       a new member is saved with its full length *)
-                    let lk := cut_nul key in
-                    let slot := match assoc_get lk acc with Some _ => lk | None => key end in
+                    (* getMember(key): an existing member is cleared and re-parsed in place,
+                       otherwise a new member is appended *)
                     match pv mf s with
-                    | (Ok, v, s) => after (assoc_set slot v acc) s
-                    | (e, v, s) => (e, JObj (assoc_set slot v acc), s)
+                    | (Ok, v, s) => after (assoc_set key v acc) s
+                    | (e, v, s) => (e, JObj (assoc_set key v acc), s)
                     end
                   else
                     match sv s with
@@ -556,7 +547,8 @@ Definition json_fuel (i : bytes) : nat := S (S (length i)).
 Definition json_run (cf : cfg) (f : filter) (L : nat) (i : bytes) : json_out :=
   let '(e, v, s) := parse_variant cf (json_fuel i) L f (ps_init i) in
   let e := match e with
-           | Ok => if negb (lastc s =? 0) && is_number v then InvalidInput else Ok
+           | Ok => if negb (lastc s =? 0) && negb (is_space (lastc s)) && is_number v
+                   then InvalidInput else Ok
            | _ => e
            end in
   {| j_err := e; j_doc := v; j_st := s |}.
